@@ -80,6 +80,31 @@ def render_files(tree: dict, rename_target=None) -> dict:
     return files
 
 
+def relative_stmt(root: str, f: str, t: str):
+    """'from .[pkg] import name' naming the scanned module t from file f (smallest level that reaches it), or None."""
+    pkg = dotted(root, f.rsplit("/", 1)[0] if "/" in f else "")
+    parts = pkg.split(".")
+    for level in range(1, len(parts) + 1):
+        base = ".".join(parts[: len(parts) - level + 1])
+        if M.is_strict_desc(t, base):
+            rest = t[len(base) + 1:]
+            if "." in rest:
+                return "from " + "." * level + rest.rsplit(".", 1)[0] + " import " + rest.rsplit(".", 1)[1]
+            return "from " + "." * level + " import " + rest
+    return None
+
+
+def render_files_relative(tree: dict) -> dict:
+    """Like render_files, but every import that can be written as a relative from-import is."""
+    files = {f: "" for f in tree["pyfiles"]}
+    for f, t in tree.get("imports", []):
+        stmt = relative_stmt(tree["root"], f, t) if all(p.isidentifier() for p in t.split(".")) else None
+        files[f] += (stmt or f"import {t}") + "\n"
+    for f in tree.get("otherfiles", []):
+        files[f] = "not python\n"
+    return files
+
+
 def expected_imports(tree: dict) -> set:
     root = tree["root"]
     mods = tree_modules(tree)
